@@ -285,7 +285,7 @@ pub fn check_archive(spec: &Spec, bytes: &[u8], lay: &Layout, st: &mut Stats, or
     st.class(&format!("{}{}", if all_ok { "faithful" } else { "MISMATCH" }, if spec.entries.len() == 1 { format!("/m{}", spec.entries[0].method) } else { format!("/{}-entries", spec.entries.len()) }));
 }
 
-fn reduced_entries(seed: u64) -> Vec<ESpec> {
+pub fn reduced_entries(seed: u64) -> Vec<ESpec> {
     // 8 entries covering every knob value at least once
     let picks: [[usize; 10]; 8] = [
         [0, 0, 0, 0, 0, 0, 0, 1, 3, 1],
@@ -321,7 +321,7 @@ pub fn run(args: &Args) -> i32 {
     ctx.rule = "E-PROD over the independent builder's knob product. One-entry archives: method {stored,deflate,bzip2,zstd,14} x data descriptor {none, sig32, nosig32, sig64, nosig64} \
         x all 8 ZIP64 central-field subsets x ZIP64 block before/after other blocks x local-extra {none, unknown block} x central-extra {none, 1, 2 blocks} x file comment {none, ASCII, high bytes} \
         x made-by {DOS, Unix, NTFS} x 7 attribute values x 3 DOS time words = 226 800 entries, each under 4 (thorough: 48) archive-level variants (prefix junk 0/1/1000/65536, comment 0/1/1000, \
-        trailing garbage 0/1/500 without ZIP64 records, forced ZIP64 end records). Two- and three-entry archives over an 8-entry reduced alphabet with duplicate names, reordered central directory \
+        trailing garbage 0/1/500 without ZIP64 records, forced ZIP64 end records). Comment + trailing-garbage lengths at the edge of the 65 557-byte end-record window (9 splits of 65 513..65 535 bytes x 9 archives x prefix). Two- and three-entry archives over an 8-entry reduced alphabet with duplicate names, reordered central directory \
         and gaps. Second producer: CPython zipfile (stored/deflate/bzip2/lzma x force_zip64 x comments x directories). distinct_nontrivial = distinct archive byte strings (hash set)."
         .into();
     ctx.assume("reference::zipbuild knows what it encoded (its Layout table is the oracle); CPython's manifest is ground truth for its archives");
@@ -392,6 +392,21 @@ pub fn run(args: &Args) -> i32 {
         }
     });
     ctx.stats.merge(s);
+    // comment + trailing garbage at the edge of the end-record search window (sum up to 65 535 bytes)
+    let edge: Vec<(usize, usize)> = vec![(65535, 0), (65514, 0), (65513, 0), (40000, 25535), (0, 65535), (1, 65534), (65534, 1), (30000, 35513), (0, 65514)];
+    let edge_r = &edge;
+    let s = par_for((edge.len() * 9 * 2) as u64, 1, |i, st| {
+        let i = i as usize;
+        let (c, t) = edge_r[i % edge_r.len()];
+        let k = (i / edge_r.len()) % 9;
+        let prefix = if i / (edge_r.len() * 9) == 1 { 1000 } else { 0 };
+        let mut spec = Spec { entries: if k == 8 { vec![] } else { vec![red[k].clone()] }, ..Default::default() };
+        apply_avar(&mut spec, &AVar { prefix, comment: c, trailing: t, z64: false });
+        let (bytes, lay) = build(&spec);
+        check_archive(&spec, &bytes, &lay, st, (5 << 40) + i as u64, "window-edge");
+    });
+    ctx.stats.merge(s);
+    ctx.bound("window_edge_comment_plus_garbage", json!(edge));
     // zero entries
     let mut st0 = Stats::default();
     for (ai, a) in av_full.iter().enumerate() {
